@@ -381,6 +381,41 @@ def u_c10c():
     return u.finish()
 
 
+def u_qv():
+    """Tag-value geometry for queries: index keys hold a tag value in a fixed 182-byte field (zero-padded / cut), so values
+    that differ only by trailing NULs or beyond byte 182 share a key and the query must still tell them apart; tags that
+    come after an empty or name-only tag; a multi-letter name that extends a letter."""
+    u = Universe("qv", nauthors=2, nabsent=1)
+    A, B = 1, 2
+    L = b"v" * 182
+    u.add(A, 1, 10, [["t", "abc"]], clen=5)                          # 1
+    u.add(A, 1, 11, [["t", b"abc\x00"]], clen=6)                     # 2 same value + NUL
+    u.add(B, 1, 12, [["t", L + b"1"]], clen=7)                       # 3 long value
+    u.add(B, 1, 13, [["t", L + b"2"]], clen=8)                       # 4 same first 182 bytes
+    u.add(A, 1, 14, [[], ["t", "abc"]], clen=9)                      # 5 an empty tag first
+    u.add(A, 7, 15, [["t"], ["t", "abc"], ["p", ("pk", B)]], clen=10)  # 6 a name-only tag first
+    u.add(B, 1, 16, [["tt", "abc"]], clen=11)                        # 7 two-letter name
+    u.add(B, 1059, 17, [["p", ("pk", A)], ["t", L]], clen=12)        # 8 exactly 182 bytes
+    u.add(A, 1, 18, [["t", "ab"], ["u", "abc"]], clen=13)            # 9 prefix value; same value under another letter
+    return u.finish()
+
+
+def u_c10d():
+    """Foreign e targets of an addressable kind, and requests that also carry NIP-09 k tags (the kind of the target as the
+    requester claims it): neither makes a foreign target deletable."""
+    u = Universe("c10d", nauthors=2, nabsent=1)
+    A, B = 1, 2
+    u.add(B, 1, 10, [], clen=5)                                              # 1 B's note
+    u.add(B, 30000, 11, [["d", "art"]], clen=6)                              # 2 B's addressable event
+    u.add(A, 5, 20, [["e", ("ev", 1)], ["k", "30023"]], clen=0)              # 3 A names B's note, claims another kind
+    u.add(A, 5, 21, [["e", ("ev", 2)]], clen=0)                              # 4 A names B's addressable event by id
+    u.add(A, 5, 22, [["e", ("ev", 2)], ["k", "30000"]], clen=0)              # 5 ... with the matching k tag
+    u.add(A, 1, 9, [], clen=7)                                               # 6 A's own note
+    u.add(A, 5, 23, [["e", ("ev", 6)], ["k", "1"]], clen=0)                  # 7 own target with its k tag (effective)
+    u.add(A, 5, 24, [["k", "1"], ["e", ("ev", 1)]], clen=0)                  # 8 k tag first, then B's note
+    return u.finish()
+
+
 def u_c11b():
     """Deletion requests with several targets where an earlier-listed address is already covered, and addresses
     whose d value contains the ':' separator."""
@@ -490,7 +525,7 @@ def u_exp(now):
     return u.finish()
 
 
-CURATED = dict(c09c=u_c09c, c10c=u_c10c, c16=u_c16, c11b=u_c11b, c12x=u_c12x, c09b=u_c09b, c10b=u_c10b, sz=u_sz, core=u_core, c09=u_c09, c10=u_c10, c11=u_c11, c18=u_c18, q=u_q)
+CURATED = dict(c10d=u_c10d, qv=u_qv, c09c=u_c09c, c10c=u_c10c, c16=u_c16, c11b=u_c11b, c12x=u_c12x, c09b=u_c09b, c10b=u_c10b, sz=u_sz, core=u_core, c09=u_c09, c10=u_c10, c11=u_c11, c18=u_c18, q=u_q)
 
 
 # ------------------------------------------------------------------------------------------------
